@@ -36,6 +36,9 @@ def install():
     import nucs.solvers.consistency_algorithms as CA
     import nucs.solvers.shaving_consistency_algorithm as SHA
 
+    from sim import nucsio
+
+    nucsio.register_custom()  # before the dispatch list is wrapped: the custom constraint is monitored like the others
     for name in dir(P):
         if name.startswith("ALG_"):
             ALG_NAMES[getattr(P, name)] = name[4:].lower()
